@@ -778,6 +778,14 @@ func fromDecMap(v ssa.Value, depth int) bool {
 			return true
 		}
 		return fromDecMap(x.Tuple, depth+1)
+	case *ssa.Call:
+		// the element handed back by a hand-written lookup helper (`lookup(m, key, missing)`)
+		if sc := x.Call.StaticCallee(); sc != nil && len(sc.Blocks) > 0 {
+			if mi, _, ok := lookupHelperParams(sc); ok && mi < len(x.Call.Args) {
+				_, isMap := x.Call.Args[mi].Type().Underlying().(*types.Map)
+				return isMap
+			}
+		}
 	case *ssa.UnOp:
 		if a, ok := x.X.(*ssa.Alloc); ok && x.Op == token.MUL {
 			for _, r := range *a.Referrers() {
